@@ -14,7 +14,7 @@ SPEC = dict(
           "strings over all of Unicode/arrays/objects with duplicate keys) rendered to RFC 8259 text with random whitespace, "
           "escape forms (short, \\uXXXX upper/lower, surrogate pairs, \\/) and number forms (positional, scientific, shifted "
           "exponent); roundtrip: programmatic values through dump()/dump(2)/sorted/serialize(opts); mutate: byte-level "
-          "mutations of rendered texts with random limits; limits: nesting/items/members/string length around each limit; "
+          "mutations of rendered texts with random limits; limits: nesting/items/members/string length (plain and fully escaped spellings) around each limit; stream: the rendered text fed to JsonStreamParser byte by byte / at one cut / at several generated cuts; "
           "fuzz: libFuzzer on Json::parse with limits from a prefix. Non-trivial = text with >=1 escape, a non-integer "
           "number or nesting >=2 (construct/roundtrip), any mutated text (mutate), any limit probe (limits), any input the "
           "parser accepted (fuzz); distinct by hash of the text."),
@@ -26,7 +26,8 @@ SPEC = dict(
             construct=P(6000, 60000, 4, 16),
             roundtrip=P(6000, 60000, 4, 16),
             mutate=P(8000, 80000, 4, 16),
-            limits=P(3000, 20000, 2, 4),
+            limits=P(4000, 30000, 2, 4),
+            stream=P(4000, 40000, 4, 16),
         )),
         dict(kind="script", name="c13_pydiff", script="props/c13_pydiff.py", needs=["c13_json"],
              quick=dict(args=[3000]), thorough=dict(args=[200000])),
